@@ -7,6 +7,7 @@ Inductive scenario :=
 | ScnInflight (k : N)   (* handshake: Pause is called while the handler of event k is executing *)
 | ScnIdle               (* Pause is called before Run starts; Run is started while paused *)
 | ScnStress             (* free-running controller: pause/continue pairs at arbitrary moments *)
+| ScnTwoPause (k : N)   (* handshake: TWO goroutines call Pause while the handler of event k is executing *)
 | ScnLive (cycles : N). (* liveness stress: back-to-back Pause / tiny spin / Continue cycles on a self-rescheduling chain,
                            a watchdog requires the handled counter to advance after every Continue; no label log *)
 
@@ -155,6 +156,7 @@ Definition check_case (c : case) : bool :=
         at_most_one (o_trace c) &&    (* serial_at_most_one: every model trace is accepted *)
         negb (o_early c) && Bool.eqb (o_done c) (s_is_done s)
     | ScnLive _ => o_done c
+    | ScnTwoPause _ => false   (* only replayed on the parallel engine *)
     end.
 
 (** ** the property on the observed behaviour, independent of the LTS *)
